@@ -70,11 +70,13 @@ def _strict(plain):
 
 
 def _ids_match(a, b):
-    def norm(n):
-        i = n.split(None, 1)[0] if n.split() else ""
-        return i[:-2] if i.endswith(("/1", "/2")) else i
-
-    return norm(a) == norm(b)
+    """dnaio's rule (record_names_match): the ids up to the first white space are equal, where
+    a final '1', '2' or '3' is ignored when both ids end in one of them ('/1' '/2', '.1' '.2')."""
+    i = a.split(None, 1)[0] if a.split() else ""
+    j = b.split(None, 1)[0] if b.split() else ""
+    if i and j and i[-1] in "123" and j[-1] in "123":
+        i, j = i[:-1], j[:-1]
+    return i == j
 
 
 def classify(case, files):
@@ -379,9 +381,13 @@ def judge_run(case, res, name, cls, n_in, ref, bound):
         idx = [int(i[2:]) if i else -1 for i in ids]
         # after a flipped bit inside a compressed stream the decoded text itself may be garbage
         # (changed ids included): order and uniqueness are only judged for the other faults
-        if bound != -1 and any(b <= a for a, b in zip(idx, idx[1:])):
+        # order and uniqueness are judged for the records in front of the first faulted one: behind it
+        # the mates of a pair may come from different input pairs (undetectable until the files end
+        # when the ids differ in a final 1/2/3 only), and --revcomp may then swap them
+        cut = next((k for k, i in enumerate(idx) if bound is not None and bound != -1 and i >= bound), len(idx))
+        if bound != -1 and any(b <= a for a, b in zip(idx[:cut], idx[1:cut])):
             out.append(C.V("output-order", f"{name}: {d['paths'][0]}: records not in input order: {ids[:12]}"))
-        for i in ids:
+        for i in ids[:cut]:
             if i in seen and bound != -1:
                 out.append(C.V("duplicate-record", f"{name}: {i} written to {seen[i]} and {d['paths'][0]}"))
             seen[i] = d["paths"][0]
